@@ -337,6 +337,7 @@ fn read_cur(p: &std::path::Path) -> Value {
 
 // ------------------------------------------------------------------ worker (child process)
 pub struct WorkerArgs {
+    pub first: u64,
     pub tier: Tier,
     pub master: u64,
     pub shard: u64,
@@ -416,6 +417,7 @@ pub fn worker(check: &dyn Check, a: WorkerArgs) -> i32 {
         let mut samples: Vec<Value> = Vec::new();
         let mut batch_keys: Vec<u64> = Vec::new();
         for i in lo..hi {
+            let i = i + a.first;
             if a.skip.contains(&i) {
                 continue;
             }
@@ -518,6 +520,8 @@ pub fn load_findings() -> Vec<Finding> {
 
 // ------------------------------------------------------------------ supervisor
 pub struct SupArgs {
+    /// index of the first run (runs are first..first+runs)
+    pub first: u64,
     pub tier: Tier,
     pub master: u64,
     pub jobs: u64,
@@ -549,7 +553,7 @@ fn spawn_worker(exe: &std::path::Path, check: &dyn Check, a: &SupArgs, shard: u6
     let hb = dir.join(format!("hb.{}", shard));
     let _ = std::fs::write(&hb, [0u8; 16]);
     let mut cmd = std::process::Command::new(exe);
-    cmd.arg("worker").arg(check.id()).arg("--tier").arg(a.tier.name()).arg("--seed").arg(a.master.to_string()).arg("--shard").arg(shard.to_string()).arg("--of").arg(of.to_string()).arg("--runs").arg(runs.to_string()).arg("--batch").arg(batch.to_string()).arg("--from-batch").arg(from_batch.to_string()).arg("--out").arg(&out).arg("--hb").arg(&hb).arg("--deadline").arg(deadline.to_string());
+    cmd.arg("worker").arg(check.id()).arg("--first").arg(a.first.to_string()).arg("--tier").arg(a.tier.name()).arg("--seed").arg(a.master.to_string()).arg("--shard").arg(shard.to_string()).arg("--of").arg(of.to_string()).arg("--runs").arg(runs.to_string()).arg("--batch").arg(batch.to_string()).arg("--from-batch").arg(from_batch.to_string()).arg("--out").arg(&out).arg("--hb").arg(&hb).arg("--deadline").arg(deadline.to_string());
     if !skip.is_empty() {
         cmd.arg("--skip").arg(skip.iter().map(|x| x.to_string()).collect::<Vec<_>>().join(","));
     }
@@ -631,7 +635,7 @@ pub fn supervise(check: &dyn Check, a: SupArgs) -> SupResult {
                         let (idx, _cnt) = read_hb(&c.hb);
                         fatal.push((idx, "abort".into(), format!("worker died ({})", st), read_cur(&c.hb.with_extension("cur"))));
                         skip.push(idx);
-                        respawn.push((ci, idx / batch));
+                        respawn.push((ci, idx.saturating_sub(a.first) / batch));
                     }
                 }
                 Ok(None) => {
@@ -650,7 +654,7 @@ pub fn supervise(check: &dyn Check, a: SupArgs) -> SupResult {
                         alive -= 1;
                         fatal.push((idx, "hang".into(), format!("run made no progress for {}s of CPU time", hang.as_secs()), read_cur(&c.hb.with_extension("cur"))));
                         skip.push(idx);
-                        respawn.push((ci, idx / batch));
+                        respawn.push((ci, idx.saturating_sub(a.first) / batch));
                     }
                 }
                 Err(e) => {
